@@ -130,6 +130,7 @@ func c02(c *Ctx) {
 		ec.meta["gov"] = fmt.Sprint(json.Valid(bytes.TrimRight(line, "\r\n|END")) || true)
 		c.Emit(ec.sx, L(B(line), dump), ec.meta)
 	}
+	reportFloatMonitor(c)
 }
 
 func init() { registry["C02"] = c02 }
